@@ -101,6 +101,11 @@ class Checker:
                 yield m.tree
         elif isinstance(scope, Func):
             yield scope.node
+            # a function that is new relative to the reference snapshot,
+            # could not be expanded in place (several returns, ...) and is
+            # called only from this function is searched as part of it
+            for h in self.new_helpers_of(scope):
+                yield h.node
         elif isinstance(scope, str):
             yield self.idx.module(scope).tree
         elif isinstance(scope, (list, tuple)):
@@ -197,9 +202,78 @@ class Checker:
 
     def facts(self, node, expand=True, stop=None, at_entry=False) -> list:
         fs = pathcond.facts(self.idx, node, stop, at_entry=at_entry)
+        # inside a new helper with a single call site: what holds at that
+        # call also holds here (context through the unique caller)
+        f = self.idx.owner(node)
+        depth = 0
+        while f is not None and stop is None and depth < 2 and \
+                self._is_new(f):
+            sites = self._call_sites(f)
+            if len(sites) != 1:
+                break
+            fs = fs + pathcond.facts(self.idx, sites[0], None,
+                                     at_entry=at_entry)
+            f = self.idx.owner(sites[0])
+            depth += 1
         if expand:
             fs = pathcond.expand_helpers(self.idx, fs, self.resolve_helper)
         return fs
+
+    # ------------------------------------------------- new (unexpanded) helpers
+    def _is_new(self, f: Func) -> bool:
+        from . import normalize
+        ref = normalize.load_reference().get(f.path)
+        return ref is not None and f.qual not in ref
+
+    def _call_sites(self, f: Func) -> list:
+        cache = self.__dict__.setdefault('_cs_cache', {})
+        if f.fq not in cache:
+            mod = self.idx.modules.get(f.mod)
+            out = []
+            for n in (mod.nodes if mod is not None else []):
+                if isinstance(n, ast.Call):
+                    fn = n.func
+                    nm = fn.attr if isinstance(fn, ast.Attribute) else (
+                        fn.id if isinstance(fn, ast.Name) else None)
+                    if nm == f.name and self.idx.owner(n) is not f:
+                        out.append(n)
+            # referenced as a value anywhere, or used in another module:
+            # not a private helper
+            for m in self.idx.modules.values():
+                for n in m.nodes:
+                    if isinstance(n, ast.Attribute) and n.attr == f.name or (
+                            isinstance(n, ast.Name) and n.id == f.name):
+                        par = self.idx.parent.get(id(n))
+                        if not (isinstance(par, ast.Call) and par.func is n
+                                and m.name == f.mod):
+                            out = []
+                            break
+                else:
+                    continue
+                break
+            cache[f.fq] = out
+        return cache[f.fq]
+
+    def new_helpers_of(self, f: Func) -> list:
+        cache = self.__dict__.setdefault('_nh_cache', {})
+        if f.fq not in cache:
+            out, todo, seen = [], [f], {f.fq}
+            while todo:
+                g = todo.pop()
+                for n in self.idx.walk(g.node):
+                    if not isinstance(n, ast.Call):
+                        continue
+                    h = self.resolve_helper(n)
+                    if h is None or h.fq in seen or h.mod != f.mod:
+                        continue
+                    seen.add(h.fq)
+                    if self._is_new(h) and len(self._call_sites(h)) >= 1 \
+                            and all(self.idx.owner(s) is g
+                                    for s in self._call_sites(h)):
+                        out.append(h)
+                        todo.append(h)
+            cache[f.fq] = out
+        return cache[f.fq]
 
     def holds(self, node, req, extra_facts=(), at_entry=False) -> bool:
         fs = list(self.facts(node, at_entry=at_entry)) + list(extra_facts)
@@ -230,7 +304,8 @@ class Checker:
 
     def guard_only(self, rule: str, node, allowed: Sequence,
                    f: Optional[Func] = None, what: str = '',
-                   stop=None, composite_extra: Sequence = ()) -> bool:
+                   stop=None, composite_extra: Sequence = (),
+                   flags_ok: bool = False) -> bool:
         """Every path condition of node is one of `allowed` (the effect must
         not be *more* restricted than stated: used for must-include sites).
         With `stop` (an enclosing statement) only conditions inside it are
@@ -250,6 +325,9 @@ class Checker:
             for leaf in leaves(fact):
                 if leaf[0] == 'atom' and isinstance(leaf[1], ast.Constant):
                     continue      # `... or not True`: restricts nothing
+                if flags_ok and leaf[0] == 'atom' and isinstance(
+                        leaf[1], ast.Name):
+                    continue      # a local boolean flag (not followed)
                 al = list(allowed) + (
                     list(composite_extra) if fact[0] != 'atom' else [])
 
